@@ -138,7 +138,7 @@ func wviolKey(mode, kind string) string {
 }
 
 // typePlane runs the exhaustive fault plane of one writer kind on (n, fam).
-func typePlane(c *engine.Ctx, k wkind, n int, fam string, rs uint64, b *baseRun) {
+func typePlane(c *engine.Ctx, k wkind, n int, fam string, rs uint64, b *baseRun, modes []string) {
 	id := k.id(n, fam)
 	wf := func(i, j int) int { return int(weightValue(fam, n, rs, i, j)) }
 	// fault-free run through this kind of writer
@@ -181,8 +181,8 @@ func typePlane(c *engine.Ctx, k wkind, n int, fam string, rs uint64, b *baseRun)
 	}
 	D := len(r.dev.sizes)
 	c.Obs("wtype_bases", 1)
-	c.Emit(stream, event{K: "wbase", ID: id, Kind: k.name, N: n, WF: fam, RS: rs, W: D, DRet: dret, Modes: faultModes, ErrNil: true})
-	for _, mode := range faultModes {
+	c.Emit(stream, event{K: "wbase", ID: id, Kind: k.name, N: n, WF: fam, RS: rs, W: D, DRet: dret, Modes: modes, ErrNil: true})
+	for _, mode := range modes {
 		for p := 0; p < D; p++ {
 			if c.Stopped() {
 				return
@@ -195,22 +195,29 @@ func typePlane(c *engine.Ctx, k wkind, n int, fam string, rs uint64, b *baseRun)
 			r.dev.afterReturn = true
 			r.after()
 			ev := event{K: "wfault", ID: id, Kind: k.name, N: n, WF: fam, RS: rs, W: D, Fault: &faultDesc{Pos: p, Mode: mode},
-				Fired: r.dev.fired, Hit: hit, Converts: r.converts, Pending: pend, Got: len(r.dev.data), ErrNil: err == nil}
+				Fired: r.dev.fired, Hit: hit, Converts: r.converts, Pending: pend, Got: len(r.dev.data), ErrNil: err == nil, Ret: r.dev.firedRet, RetErr: r.dev.firedErr, FLen: r.dev.firedLen}
 			if err != nil {
-				ev.Err = err.Error()
+				ev.Err = errText(err)
 			}
 			if pi != nil {
 				ev.Panic = pi.String()
 			}
 			c.Emit(stream, ev)
 			c.Obs("wtype:fault_runs:"+k.name+":"+mode, 1)
+			if hit {
+				c.Obs("wtype:returned_by_the_device:"+retClass(r.dev.firedRet, r.dev.firedLen, r.dev.firedErr), 1)
+			}
+			if pi != nil && brokenCount(mode) {
+				c.Obs("wtype:"+k.name+":"+mode+":LIB_panicked(count outside 0..len(p), not judged)", 1)
+				continue
+			}
 			if pi != nil {
 				c.Violation("LIB|panic-on-write-failure|"+engine.SiteNoLine(pi.Site)+"|"+mode+"|writer="+k.name, det(fmt.Sprintf("; device call %d of %d, %s", p, D, mode)), pi.String(), "a non-nil error")
 				continue
 			}
 			switch {
 			case !r.dev.fired:
-				if mode != modeShortNil {
+				if !nilErrorMode(mode) {
 					c.Obs("wtype:fault_not_reached", 1)
 				}
 			case !hit:
@@ -219,12 +226,12 @@ func typePlane(c *engine.Ctx, k wkind, n int, fam string, rs uint64, b *baseRun)
 					res = "error"
 				}
 				c.Obs("wtype:"+k.name+":fault_fell_into_the_callers_flush(not judged):LIB_returned_"+res, 1)
-			case !judgedMode(mode) && !r.converts:
+			case !judgedUnder(mode, r.converts):
 				res := "nil"
 				if err != nil {
 					res = "error"
 				}
-				c.Obs("wtype:"+k.name+":short-nil-error:LIB_returned_"+res, 1)
+				c.Obs("wtype:"+k.name+":"+mode+":LIB_returned_"+res, 1)
 			default:
 				c.NTDistinct(1)
 				if r.top != nil && r.top.failed == 0 {
@@ -275,6 +282,24 @@ func typeInstances(thorough bool) []int {
 	return []int{1, 2, 3, 5, 8, 0}
 }
 
+// typeModes: the fault modes of a writer kind.  The interface kinds hand every
+// return value of the device straight to LIB: the whole space of failing-Write
+// behaviours (quick: for n <= 3, the judged count modes above that).  A caller's *bufio.Writer absorbs the count (a failed flush makes
+// it fail for good): the original modes plus the full-count failures; thorough
+// adds the other judged count modes.
+func typeModes(kind string, n int, thorough bool) []string {
+	if kind == "bufio" {
+		if thorough {
+			return joinModes(faultModes, fullCountModes, countModes)
+		}
+		return joinModes(faultModes, fullCountModes)
+	}
+	if thorough || n <= 3 {
+		return allInProcessModes()
+	}
+	return joinModes(faultModes, fullCountModes, countModes)
+}
+
 var typeFamilies = []string{"neg", "large", randFamily}
 
 var errReaderGone = errors.New("the reader of the pipe went away")
@@ -297,7 +322,7 @@ func typeUnits(c *engine.Ctx) {
 					return
 				}
 				for _, name := range []string{"stringwriter", "readerfrom", "stringwriter+readerfrom", "multiwriter"} {
-					typePlane(c, wkind{name: name}, n, fam, rs, b)
+					typePlane(c, wkind{name: name}, n, fam, rs, b, typeModes(name, n, c.Thorough()))
 				}
 				pipeRuns(c, n, fam, rs, b)
 				faultFreeTypes(c, n, fam, rs, b)
@@ -312,7 +337,7 @@ func typeUnits(c *engine.Ctx) {
 				ks := bufioKinds(b, bufioSizes)
 				c.Obs("wtype:bufio:(size, fill level) pairs", len(ks))
 				for _, k := range ks {
-					typePlane(c, k, n, fam, rs, b)
+					typePlane(c, k, n, fam, rs, b, typeModes(k.name, n, c.Thorough()))
 				}
 			})
 		}
@@ -459,7 +484,11 @@ func typeFinish(s *engine.Super, wbases, wfaults []event) int64 {
 			continue
 		}
 		bi.seen[ev.Fault.Mode][ev.Fault.Pos] = true
-		if ev.Panic != "" || !ev.Fired || !ev.Hit || (!judgedMode(ev.Fault.Mode) && !ev.Converts) {
+		if ev.Fired && judgedMode(ev.Fault.Mode) != retOK(ev.Ret, ev.FLen, ev.RetErr) {
+			s.Inconclusive(fmt.Sprintf("event log: mode %s is judged=%v but the faulted device call returned (%d, %q) for %d bytes", ev.Fault.Mode, judgedMode(ev.Fault.Mode), ev.Ret, ev.RetErr, ev.FLen))
+			return judged
+		}
+		if ev.Panic != "" || !ev.Fired || !ev.Hit || !judgedUnder(ev.Fault.Mode, ev.Converts) {
 			s.AddObs("offline:wtype:records_not_judged", 1)
 			continue
 		}
